@@ -16,9 +16,10 @@ Definition qn (n : nat) : Q := inject_Z (Z.of_nat n).
 Fixpoint qpow (x : Q) (n : nat) : Q :=
   match n with O => 1 | S n' => x * qpow x n' end.
 
-(* FunctionGF (and DiscreteGF, which only supplies the coefficient function) | SumGF | ProductGF *)
+(* FunctionGF (and DiscreteGF, which only supplies the coefficient function and the number of
+   coefficients) with its _maxTerm | SumGF | ProductGF *)
 Inductive gf : Type :=
-| Fn (c : nat -> Q)
+| Fn (c : nat -> Q) (m : nat)
 | Sum (a b : gf)
 | Prod (a b : gf).
 
@@ -40,7 +41,7 @@ Definition index_pairs (i : nat) : list (nat * nat) := forwards i ++ backwards i
 
 Fixpoint coeff (g : gf) (i : nat) : Q :=
   match g with
-  | Fn c => c i                                                   (* function_gf.py:43 *)
+  | Fn c _ => c i                                                 (* function_gf.py:43 *)
   | Sum a b => coeff a i + coeff b i                              (* sum_gf.py:45 *)
   | Prod a b =>                                                   (* product_gf.py:60-64: c = 0; c += gf1[i]*gf2[j] *)
       fold_left (fun c p => c + coeff a (fst p) * coeff b (snd p)) (index_pairs i) 0
@@ -48,27 +49,31 @@ Fixpoint coeff (g : gf) (i : nat) : Q :=
 
 (* ---------------------------------------------------------------- evaluate *)
 
-(* FunctionGF._maxTerm: 300 whatever [n] is given (function_gf.py:36) *)
+(* FunctionGF.__init__: self._maxTerm = 300 if n is None else n   (function_gf.py:36, as repaired
+   by fix F12; the pinned tree had "else 300" and ignored n) *)
 Definition max_term : nat := 300.
 
 (* v = 0; for i in range(m + 1): v += self[i] * x**i *)
 Definition eval_terms (m : nat) (c : nat -> Q) (x : Q) : Q :=
   fold_left (fun v i => v + c i * qpow x i) (seq 0 (S m)) 0.
 
-(* evaluation with the leaves summed up to term [m]; the code is [eval_to max_term] *)
-Fixpoint eval_to (m : nat) (g : gf) (x : Q) : Q :=
+(* evaluation with the leaf of _maxTerm m summed up to term [cut m] *)
+Fixpoint eval_cut (cut : nat -> nat) (g : gf) (x : Q) : Q :=
   match g with
-  | Fn c => eval_terms m c x                                      (* function_gf.py:50-53 *)
-  | Sum a b => eval_to m a x + eval_to m b x                      (* sum_gf.py:53 *)
-  | Prod a b => eval_to m a x * eval_to m b x                     (* product_gf.py:72 *)
+  | Fn c m => eval_terms (cut m) c x                              (* function_gf.py:50-53 *)
+  | Sum a b => eval_cut cut a x + eval_cut cut b x                (* sum_gf.py:53 *)
+  | Prod a b => eval_cut cut a x * eval_cut cut b x               (* product_gf.py:72 *)
   end.
-Definition eval (g : gf) (x : Q) : Q := eval_to max_term g x.
+(* the code: every leaf up to its own _maxTerm *)
+Definition eval (g : gf) (x : Q) : Q := eval_cut (fun m => m) g x.
+(* every leaf up to the same term m' (what the pinned tree did with m' = 300; what tie B runs) *)
+Definition eval_to (m' : nat) (g : gf) (x : Q) : Q := eval_cut (fun _ => m') g x.
 
 (* ---------------------------------------------------------------- scale *)
 
 Fixpoint scale (n : Q) (g : gf) : gf :=
   match g with
-  | Fn c => Fn (fun i => n * c i)                                 (* function_gf.py:87-90: lambda x: n * f(x) *)
+  | Fn c m => Fn (fun i => n * c i) m                             (* function_gf.py:87-90: FunctionGF(lambda x: n * f(x), self._maxTerm) *)
   | Sum a b => Sum (scale n a) (scale n b)                        (* sum_gf.py:69: SumGF(gf1 * n, gf2 * n), n a Number *)
   | Prod a b => Prod (scale n a) b                                (* product_gf.py:95: ProductGF(gf1 * n, gf2) *)
   end.
@@ -88,7 +93,7 @@ Fixpoint deriv_on (fuel : nat) (order : nat) (g : gf) : option gf :=
   | O => None
   | S fuel' =>
     match g with
-    | Fn c => Some (Fn (dcoef c order))                           (* function_gf.py:78-79 *)
+    | Fn c m => Some (Fn (dcoef c order) m)                       (* function_gf.py:78-79: FunctionGF(df, self._maxTerm) *)
     | Sum a b =>                                                  (* sum_gf.py:61 *)
         match deriv_on fuel' order a, deriv_on fuel' order b with
         | Some a', Some b' => Some (Sum a' b')
@@ -107,11 +112,11 @@ Fixpoint deriv_on (fuel : nat) (order : nat) (g : gf) : option gf :=
   end.
 
 Fixpoint height (g : gf) : nat :=
-  match g with Fn _ => O | Sum a b | Prod a b => S (Nat.max (height a) (height b)) end.
+  match g with Fn _ _ => O | Sum a b | Prod a b => S (Nat.max (height a) (height b)) end.
 (* largest number of ProductGF nodes on a path *)
 Fixpoint pdepth (g : gf) : nat :=
   match g with
-  | Fn _ => O
+  | Fn _ _ => O
   | Sum a b => Nat.max (pdepth a) (pdepth b)
   | Prod a b => S (Nat.max (pdepth a) (pdepth b))
   end.
@@ -122,8 +127,11 @@ Definition deriv (order : nat) (g : gf) : gf :=
 
 (* ---------------------------------------------------------------- operator layer (gf.py:162-207, interface.py:34-39) *)
 
-(* gf_from_coefficients(cs) = DiscreteGF(coefficients=cs): wrap(i) = cs[i] if i < len(cs) else 0 *)
-Definition from_coeffs (cs : list Q) : gf := Fn (fun i => nth i cs 0).
+(* gf_from_coefficients(cs) = DiscreteGF(coefficients=cs): wrap(i) = cs[i] if i < len(cs) else 0,
+   ncoeff = len(cs) *)
+Definition from_coeffs (cs : list Q) : gf := Fn (fun i => nth i cs 0) (length cs).
+(* gf_from_coefficient_function(f) = DiscreteGF(f=f): ncoeff = None, so _maxTerm = 300 *)
+Definition from_function (c : nat -> Q) : gf := Fn c max_term.
 
 Definition gadd (f g : gf) : gf := Sum f g.                                  (* f + g  -> self.sum(g) *)
 Definition gadd_num (f : gf) (n : Q) : gf := Sum f (from_coeffs [n]).        (* f + n  -> self.sum(gf_from_coefficients([n])) *)
@@ -137,7 +145,8 @@ Definition gdiv (f : gf) (n : Q) : option gf :=
 
 (* programs over the operators; [None] = the ZeroDivisionError of a division by 0 *)
 Inductive expr : Type :=
-| ECoeffs (cs : list Q)
+| ECoeffs (cs : list Q)                 (* gf_from_coefficients(cs) *)
+| EFunc (cs : list Q)                   (* gf_from_coefficient_function(lambda i: cs[i] if i < len(cs) else 0) *)
 | EAdd (a b : expr) | EAddN (a : expr) (n : Q)
 | ESub (a b : expr) | ESubN (a : expr) (n : Q)
 | EMul (a b : expr) | EMulN (a : expr) (n : Q)
@@ -150,6 +159,7 @@ Definition obind {A B} (o : option A) (f : A -> option B) : option B :=
 Fixpoint build (e : expr) : option gf :=
   match e with
   | ECoeffs cs => Some (from_coeffs cs)
+  | EFunc cs => Some (from_function (fun i => nth i cs 0))
   | EAdd a b => obind (build a) (fun f => obind (build b) (fun g => Some (gadd f g)))
   | EAddN a n => obind (build a) (fun f => Some (gadd_num f n))
   | ESub a b => obind (build a) (fun f => obind (build b) (fun g => Some (gsub f g)))
@@ -163,8 +173,17 @@ Fixpoint build (e : expr) : option gf :=
 (* longest coefficient list of a program: its leaves vanish from this index on *)
 Fixpoint max_len (e : expr) : nat :=
   match e with
-  | ECoeffs cs => length cs
+  | ECoeffs cs | EFunc cs => length cs
   | EAdd a b | ESub a b | EMul a b => Nat.max (max_len a) (max_len b)
   | EAddN a _ | ESubN a _ => Nat.max (max_len a) 1
   | EMulN a _ | EDiv a _ | EDx a _ => max_len a
+  end.
+
+(* coefficient functions handed over as such are within reach of their 301-term loop *)
+Fixpoint funcs_short (e : expr) : Prop :=
+  match e with
+  | ECoeffs _ => True
+  | EFunc cs => (length cs <= S max_term)%nat
+  | EAdd a b | ESub a b | EMul a b => funcs_short a /\ funcs_short b
+  | EAddN a _ | ESubN a _ | EMulN a _ | EDiv a _ | EDx a _ => funcs_short a
   end.
